@@ -473,7 +473,7 @@ def a3(ctx: Ctx):
                 ctx.ob(f"{r}:value", okv, "" if okv else f"visit_{r} stores {sorted(vcs)} as the assigned value", file=PARSER_REL, line=a.line)
 
 
-@rule("E9b", "BUILDER-FORM: each expression builder puts operator and operands where its class prints them (sign before operand, operator between operands)", ["C01"], floor=6)
+@rule("E9b", "BUILDER-FORM: each expression builder puts operator and operands where its class prints them (sign before operand, operator between operands)", ["C01", "C07"], floor=6, default_props=["C01"])
 def e9b(ctx: Ctx):
     from .rules_abs import _renderings, rule_values
     from .rules_expr import infix_level
@@ -512,7 +512,9 @@ def e9b(ctx: Ctx):
     ctx.need("unop_exp" in vals, "unop_exp", "rule not found")
     fs = forms("unop_exp")
     ok = bool(fs) and all(re.fullmatch(r"(\+|-|\+\|-|-\|\+) ?\(?⟦e⟧\)?", f) for f in fs)
-    ctx.ob("unop_exp", ok, "" if ok else f"a signed operand is emitted as {sorted(fs)}: the sign does not precede its operand", file=PARSER_REL, line=1)
+    # (a hole the builder fills with something that is neither operator text nor the operand is an internal object in the text: C07)
+    opaque = any("⟦?⟧" in f for f in fs)
+    ctx.ob("unop_exp", ok, "" if ok else f"a signed operand is emitted as {sorted(fs)}: the sign does not precede its operand" + (" (what stands in its place is not text: an internal object is formatted into the program)" if opaque else ""), file=PARSER_REL, line=1, props=["C01", "C07"] if opaque else None)
     for rname in ("num_exp", "num_and_exp", "num_gtle_exp", "num_sum_exp", "num_prod_exp", "num_power_exp", "str_exp", "bool_or_exp", "bool_and_exp", "bool_bin_exp", "bool_str_exp"):
         if rname not in vals:
             continue
